@@ -40,7 +40,7 @@ func MakeConfig(profile, tier string, seed int64, idx int) Config {
 	cfg.BlocksPerEpoch = []int64{1, 2, 3, 5}[r.Intn(4)]
 	cfg.Unbonding = time.Duration(600+r.Intn(1400)) * time.Second
 	cfg.ConsumerUnbonding = cfg.Unbonding * 4 / 5
-	cfg.EpochsToRewards = int64([]int{0, 1, 3}[r.Intn(3)])
+	cfg.EpochsToRewards = int64([]int{1, 2, 3}[r.Intn(3)])
 	cfg.SlashFraction = []string{"0.05", "0.34", "1.0", "0.001"}[r.Intn(4)]
 	cfg.SlashPeriod = []time.Duration{10 * time.Second, time.Hour, 60 * time.Second}[r.Intn(3)]
 	cfg.VotingPeriod = 20 * time.Second
